@@ -76,6 +76,43 @@ type verifC19 struct {
 	quirk   bool // an assertion with a new-line-led signature block was delivered
 	dots    []string // identities with "." or ".." in the primary key that Add accepted
 	curDot  bool     // the lookup being judged itself uses "." or ".." as a key value
+	// stacking: tops[i] is the database operations go to (the base one or
+	// the top of a chain built with WithStackedBackstore); chain[i] holds
+	// the memory backstores of the stacked levels above base i; layers is
+	// the model per level (layers[0] = base), w.model the merged view
+	tops   []*asserts.Database
+	chain  [][]asserts.Backstore
+	layers []map[string]*verifIdent
+}
+
+func (w *verifC19) dbs() []*asserts.Database { return w.tops }
+
+// rebuild re-creates the chains over the current base databases.
+func (w *verifC19) rebuild() {
+	w.tops = append([]*asserts.Database(nil), w.st.dbs()...)
+	for i := range w.tops {
+		for _, bs := range w.chain[i] {
+			w.tops[i] = w.tops[i].WithStackedBackstore(bs)
+		}
+	}
+}
+
+// opStack puts one more level on both chains (up to three).
+func (w *verifC19) opStack() {
+	if len(w.layers) > 3 {
+		w.opFind()
+		return
+	}
+	for i := range w.chain {
+		w.chain[i] = append(w.chain[i], asserts.NewMemoryBackstore())
+	}
+	w.layers = append(w.layers, map[string]*verifIdent{})
+	w.rebuild()
+	w.c.Logf("stack: operations now go to databases stacked %d level(s) above mem and fs", len(w.layers)-1)
+	w.fault("stacked-one-more-level")
+	if len(w.layers) > 2 {
+		w.c.Count("probe:stacked-two-or-more-levels")
+	}
 }
 
 const verifC19DotClass = "fs-store-misplaces-dot-or-dotdot-primary-key"
@@ -105,6 +142,11 @@ const verifC19BrokenClass = "fs-store-cannot-read-back-what-it-stored:signature-
 
 func (w *verifC19) fault(k string) { w.c.Count("fault:" + k); w.fired++ }
 
+// sequence numbers with one, two and three digits: directory names sort
+// differently from numbers
+var verifSeqMenu = []int{1, 2, 3, 9, 10, 11, 99, 100, 101}
+var verifAfterMenu = []int{-1, 0, 1, 2, 3, 8, 9, 10, 11, 12, 98, 99, 100, 101, 102}
+
 var verifOddPK = []string{"k0", "k1", "a b", "x*y", "0:z", "ü-1", "active", "#>", "k%2A", "..k", "k.", "-"}
 
 // verifDotPK: primary key values that are also directory entries.
@@ -122,6 +164,8 @@ func verifRunC19(c *verifsim.Ctx) {
 	for _, p := range verifProbesC19 {
 		c.Add(p, 0) // so that a probe that is never reached shows up as 0
 	}
+	stage := "running"
+	defer verifRecover(c, &stage)
 	keys := verifKeys()
 	w := &verifC19{c: c, keys: keys, model: map[string]*verifIdent{}, builtin: map[string]string{}}
 	root, store := keys["root"], keys["store"]
@@ -141,6 +185,9 @@ func verifRunC19(c *verifsim.Ctx) {
 	}
 	w.st = verifOpenStores(c, trusted, predefined)
 	defer w.st.close()
+	w.chain = make([][]asserts.Backstore, 2)
+	w.layers = []map[string]*verifIdent{{}}
+	w.rebuild()
 	faults := c.Draw("faults", 4) != 0
 	c.Logf("faults=%v", faults)
 
@@ -149,7 +196,7 @@ func verifRunC19(c *verifsim.Ctx) {
 
 	nops := c.Range("nops", 6, 44)
 	for i := 0; i < nops && len(c.Violations) == 0; i++ {
-		op := c.Draw("op", 12)
+		op := c.Draw("op", 13)
 		switch {
 		case op <= 4:
 			w.opAdd(faults)
@@ -170,6 +217,7 @@ func verifRunC19(c *verifsim.Ctx) {
 		case op == 10:
 			c.Logf("restart: fs database re-opened from disk")
 			w.st.reopenFS()
+			w.rebuild()
 			w.fault("restart")
 			if len(w.model) > 0 {
 				c.Count("probe:restart-with-stored-assertions")
@@ -178,6 +226,8 @@ func verifRunC19(c *verifsim.Ctx) {
 		case op == 11:
 			w.opFindMany()
 			w.opFindSequence()
+		case op == 12:
+			w.opStack()
 		}
 	}
 	if len(c.Violations) == 0 {
@@ -232,7 +282,7 @@ func (w *verifC19) genIdentity() verifGen {
 	case 2:
 		g.t = asserts.TestOnlySeqType
 		n := []string{"s1", "s 2"}[c.Draw("n", 2)]
-		seq := 1 + c.Draw("sequence", 6)
+		seq := verifSeqMenu[c.Draw("sequence", len(verifSeqMenu))]
 		g.h["n"], g.h["sequence"] = n, strconv.Itoa(seq)
 		g.pk = []string{n, strconv.Itoa(seq)}
 		g.format = c.Draw("format", 3)
@@ -279,6 +329,24 @@ func (w *verifC19) genForAdd() verifGen {
 func (w *verifC19) opAdd(faults bool) {
 	c := w.c
 	g := w.genForAdd()
+	w.opAddGen(g, faults)
+	// sequences grow by several members at a time now and then, with
+	// numbers of different lengths
+	if g.t == asserts.TestOnlySeqType && len(c.Violations) == 0 && c.Chance("sequence-burst", 1, 3) {
+		for j := 0; j < 2 && len(c.Violations) == 0; j++ {
+			seq := verifSeqMenu[c.Draw("sequence", len(verifSeqMenu))]
+			g2 := verifGen{t: g.t, h: map[string]interface{}{"authority-id": "canonical", "n": g.pk[0], "sequence": strconv.Itoa(seq)}, pk: []string{g.pk[0], strconv.Itoa(seq)}}
+			g2.format = c.Draw("format", 3)
+			if g2.format > 0 {
+				g2.h["format"] = strconv.Itoa(g2.format)
+			}
+			w.opAddGen(g2, false)
+		}
+	}
+}
+
+func (w *verifC19) opAddGen(g verifGen, faults bool) {
+	c := w.c
 	id := verifIdentOf(g.t, g.pk)
 	cur := -1
 	if m := w.model[id]; m != nil {
@@ -368,7 +436,7 @@ func (w *verifC19) add(label string, a asserts.Assertion, good bool) {
 	}
 	_, clash := w.builtin[id]
 	var errs [2]error
-	for i, db := range w.st.dbs() {
+	for i, db := range w.dbs() {
 		errs[i] = db.Add(a)
 	}
 	c.Logf("add %s (current %d) -> mem:%s fs:%s", label, cur, verifErrClass(errs[0]), verifErrClass(errs[1]))
@@ -401,6 +469,11 @@ func (w *verifC19) add(label string, a asserts.Assertion, good bool) {
 		} else {
 			w.fault("add-lower-revision")
 		}
+		if depth := w.depthOf(id); depth >= 2 {
+			c.Count("probe:stale-add-with-current-revision-two-or-more-levels-down")
+		} else if depth == 1 {
+			c.Count("probe:stale-add-with-current-revision-one-level-down")
+		}
 		if accepted {
 			w.violate("equal-or-lower-revision-accepted", "Add(%s) accepted although revision %d is already stored", label, cur)
 			return
@@ -428,6 +501,14 @@ func (w *verifC19) add(label string, a asserts.Assertion, good bool) {
 			e.seq = sm.Sequence()
 		}
 		m.fmts[format] = e
+		top := w.layers[len(w.layers)-1]
+		if top[id] == nil {
+			top[id] = &verifIdent{typ: t, pk: m.pk, id: id, fmts: map[int]*verifEnt{}}
+		}
+		top[id].fmts[format] = e
+		if len(w.layers) > 1 && cur >= 0 {
+			c.Count("probe:revision-moved-forward-above-a-lower-level")
+		}
 		if verifHasDotPK(m.pk) {
 			if len(w.dots) == 0 || w.dots[len(w.dots)-1] != id {
 				w.dots = append(w.dots, id)
@@ -462,6 +543,17 @@ func (w *verifC19) opClash() {
 		a = verifMustSign(c, root, asserts.AccountType, map[string]interface{}{"authority-id": "canonical", "account-id": "predef-acct", "display-name": "Predefined 2", "validation": "verified", "timestamp": verifRFC(since), "revision": rev}, nil)
 	}
 	w.add("clash "+verifIdentity(a)+" rev"+rev, a, true)
+}
+
+// depthOf: how many levels below the top the current revision of an
+// identity lives (0 = in the top database's own backstore, -1 = nowhere).
+func (w *verifC19) depthOf(id string) int {
+	for d := 0; d < len(w.layers); d++ {
+		if w.layers[len(w.layers)-1-d][id] != nil {
+			return d
+		}
+	}
+	return -1
 }
 
 // ---- lookups
@@ -519,7 +611,7 @@ func (w *verifC19) checkFind(t *asserts.AssertionType, pk []string, filter map[s
 	for k, v := range filter {
 		h[k] = v
 	}
-	for i, db := range w.st.dbs() {
+	for i, db := range w.dbs() {
 		got, err := db.Find(t, h)
 		w.compareOne(w.st.names[i], "Find("+id+") "+why, got, err, want, wantLabel)
 	}
@@ -562,7 +654,7 @@ func (w *verifC19) opFind() {
 		w.curDot = verifHasDotPK(pk)
 		defer func() { w.curDot = false }()
 		h := verifHeadersFor(t, pk)
-		for i, db := range w.st.dbs() {
+		for i, db := range w.dbs() {
 			got, err := db.Find(t, h)
 			w.compareOne(w.st.names[i], "Find("+id+")", got, err, "", "never added")
 		}
@@ -593,7 +685,7 @@ func (w *verifC19) opFindMaxFormat() {
 	w.curDot = verifHasDotPK(pk)
 	defer func() { w.curDot = false }()
 	h := verifHeadersFor(t, pk)
-	for i, db := range w.st.dbs() {
+	for i, db := range w.dbs() {
 		got, err := db.FindMaxFormat(t, h, mf)
 		w.compareOne(w.st.names[i], fmt.Sprintf("FindMaxFormat(%s, %d)", id, mf), got, err, want, wantLabel)
 	}
@@ -627,20 +719,27 @@ func (w *verifC19) opFindMany() {
 	if c.Chance("many-tag", 1, 3) {
 		h["tag"] = "t" + strconv.Itoa(c.Draw("tag", 3))
 	}
+	// FindMany of a stacked database searches every level and returns
+	// each level's current assertion of an identity
 	var want []string
-	for _, id := range ids {
-		b := w.model[id].best(verifMaxFormat(t))
-		if b == nil {
-			continue
-		}
-		ok := true
-		for k, v := range h {
-			if b.str[k] != v {
-				ok = false
+	for _, layer := range w.layers {
+		for _, id := range ids {
+			if layer[id] == nil {
+				continue
 			}
-		}
-		if ok {
-			want = append(want, b.enc)
+			b := layer[id].best(verifMaxFormat(t))
+			if b == nil {
+				continue
+			}
+			ok := true
+			for k, v := range h {
+				if b.str[k] != v {
+					ok = false
+				}
+			}
+			if ok {
+				want = append(want, b.enc)
+			}
 		}
 	}
 	if t == asserts.TestOnlyType {
@@ -671,7 +770,7 @@ func (w *verifC19) opFindMany() {
 	if len(want) > 1 {
 		c.Count("probe:find-many-several-results")
 	}
-	for i, db := range w.st.dbs() {
+	for i, db := range w.dbs() {
 		got, err := db.FindMany(t, h)
 		if err != nil && !verifIsNotFound(err) {
 			w.violate(w.fsClass(w.st.names[i], "lookup-failed"), "%s: FindMany(%s %v) fails: %s%s", w.st.names[i], t.Name, hs, verifNoPath(err), w.dotNote())
@@ -697,7 +796,7 @@ func (w *verifC19) opFindSequence() {
 	c := w.c
 	t := asserts.TestOnlySeqType
 	n := []string{"s1", "s 2"}[c.Draw("n", 2)]
-	after := c.Draw("after", 8) - 1
+	after := verifAfterMenu[c.Draw("after", len(verifAfterMenu))]
 	maxFormat := c.Draw("seq-max-format", 4) - 1
 	mf := maxFormat
 	if mf == -1 {
@@ -740,9 +839,16 @@ func (w *verifC19) opFindSequence() {
 	if want != nil {
 		wantEnc, wantLabel = want.enc, want.label
 		c.Count("probe:find-sequence-hit")
+		digits := map[int]bool{}
+		for _, m := range ms {
+			digits[len(strconv.Itoa(m.seq))] = true
+		}
+		if len(digits) > 1 {
+			c.Count("probe:find-sequence-over-numbers-of-different-length")
+		}
 	}
 	c.Logf("find-sequence n=%q after=%d max-format=%d -> expect %s", n, after, maxFormat, wantLabel)
-	for i, db := range w.st.dbs() {
+	for i, db := range w.dbs() {
 		got, err := db.FindSequence(t, map[string]string{"n": n}, after, maxFormat)
 		var ga asserts.Assertion
 		if err == nil {
@@ -784,4 +890,4 @@ func (w *verifC19) audit(why string) {
 	w.c.Logf("audit (%s): %d identities", why, len(ids))
 }
 
-var verifProbesC19 = []string{"probe:clash-refused", "probe:dot-primary-key-stored", "probe:find-absent", "probe:find-many-several-results", "probe:find-sequence-hit", "probe:find-sequence-skips-member-of-higher-format", "probe:identity-stored-in-several-formats", "probe:max-format-hides-higher-revision", "probe:optional-primary-key-non-default", "probe:restart-with-stored-assertions", "probe:revision-error-on-stale-add", "probe:revision-moved-forward"}
+var verifProbesC19 = []string{"probe:stacked-two-or-more-levels", "probe:revision-moved-forward-above-a-lower-level", "probe:stale-add-with-current-revision-two-or-more-levels-down", "probe:stale-add-with-current-revision-one-level-down", "probe:find-sequence-over-numbers-of-different-length", "probe:clash-refused", "probe:dot-primary-key-stored", "probe:find-absent", "probe:find-many-several-results", "probe:find-sequence-hit", "probe:find-sequence-skips-member-of-higher-format", "probe:identity-stored-in-several-formats", "probe:max-format-hides-higher-revision", "probe:optional-primary-key-non-default", "probe:restart-with-stored-assertions", "probe:revision-error-on-stale-add", "probe:revision-moved-forward"}
